@@ -45,6 +45,11 @@ CLAIMS = {
             "terminal state is replayed on the real DispatcherBuilder (layout of the executed list must equal the model's, else the real trace is judged "
             "by the same predicate), random large registration traces are validated with C10At after every registration; max_threads = widest stage.",
             PLN + " (InvC10)", "DESIGN.md §5 C10"),
+    "C11": ("Real parallelism: Rendezvous.tla (liveness: with W >= Width every rendezvous system gets inside run and the stage terminates, all Width systems "
+            "inside run together; negative control W < Width must stall) for each width; on the real code stages of rendezvous systems of widths 2..16 "
+            "with user pools, dispatch_par, the default pool, inside a batch, through the async dispatcher and called from a foreign pool, several "
+            "running-time hint sets, repeated dispatches: every run is validated as a behaviour of Rendezvous by TLC; a stall counts only if reproduced.",
+            "TLC liveness checking of Rendezvous.tla + real rendezvous runs validated by RendezvousTrace (InvC11)", "DESIGN.md §5 C11"),
     "C12": ("Thread-local systems: position in the list at registration; at run time thread = the caller's, after all other systems, one at a time in "
             "registration order (TLC on recorded dispatches incl. dispatch_thread_local and mixed call sequences); Exec.tla with thread-local systems. "
             "KF1 is reported as KNOWN-FINDING.",
